@@ -1,22 +1,37 @@
 // child module of src/arc.rs (sees drop_inner, drop_slow, must_be_unique, try_allocate_for_layout,
 // offset_of_data). One library operation per harness; the pre-state is an allocation whose count
 // word is an arbitrary n in [1, isize::MAX] (DESIGN §3.3/§4.4).
-#![allow(dead_code, unused_imports, unused_unsafe, static_mut_refs, unused_variables, unused_mut)]
+#![allow(dead_code, unused_imports, unused_unsafe, static_mut_refs, unused_variables, unused_mut, deprecated)]
 use crate::arc::{Arc, ArcInner};
+use crate::header::HeaderSlice;
 use crate::unique_arc::UniqueArc;
 use crate::vrt;
-use crate::vrt::{any_count, base, cnt, cnt_at, data, set_cnt, Probe, Tr, Tr16, Tr64, Tr8, Zd, S1, S16a16, S64a64, S9a8, Z};
+use crate::vrt::{any_count, base, cnt, cw, data, mk, rd, set_cnt, Probe, Tr, Tr16, Tr64, Tr8, TrIter, Zd, S1, S16a16, S33a32,
+                 S64a64, S9a8, S4a4, Z};
 use crate::{ArcBorrow, OffsetArc};
+use core::alloc::Layout;
+use core::mem::MaybeUninit;
+
+pub(crate) fn mk_dyn<T: Probe + 'static>(v: T) -> Arc<dyn Probe> {
+    let p = Arc::into_raw(Arc::new(v));
+    unsafe { Arc::from_raw(p as *const dyn Probe) }
+}
+/// Arc<[u32]> of symbolic length <= 6 with symbolic contents (copy-based constructor: no loop)
+pub(crate) fn mk_slice_u32() -> Arc<[u32]> {
+    let buf: [u32; 6] = kani::any();
+    let len: usize = kani::any();
+    kani::assume(len <= 6);
+    Arc::from(&buf[..len])
+}
 
 // ------------------------------------------------------------------------------------------
-// C04 accessor agreement, C01/C04 clone and release on a plain Arc<T>
+// C04 accessor agreement
 // ------------------------------------------------------------------------------------------
 
 // @h props=C04,C03 fuc=Arc::count,Arc::strong_count,Arc::is_unique
 gproof! { fn c04_arc_count_accessors() {
     let n = any_count();
-    let a = Arc::new(S9a8::any());
-    set_cnt(&a, n);
+    let a = mk(S9a8::any(), n);
     assert!(Arc::count(&a) == n);
     assert!(Arc::strong_count(&a) == n);
     assert!(a.is_unique() == (n == 1));
@@ -24,39 +39,624 @@ gproof! { fn c04_arc_count_accessors() {
     core::mem::forget(a);
 } }
 
-// @h props=C01,C04,C16 fuc=Arc::clone
-gproof! { fn c01_arc_clone_tr8() {
+// @h props=C04 fuc=Arc::count,Arc::strong_count,Arc::is_unique
+gproof! { fn c04_arc_count_accessors_slice() {
     let n = any_count();
-    let a = Arc::new(Tr8::new());
-    let (id, v) = (a.id, a.v);
+    let a = mk_slice_u32();
     set_cnt(&a, n);
+    assert!(Arc::count(&a) == n && Arc::strong_count(&a) == n && a.is_unique() == (n == 1));
+    core::mem::forget(a);
+} }
+
+// @h props=C04 fuc=Arc::count,Arc::strong_count,Arc::is_unique
+gproof! { fn c04_arc_count_accessors_dyn() {
+    let n = any_count();
+    let a = mk_dyn(S9a8::any());
+    set_cnt(&a, n);
+    assert!(Arc::count(&a) == n && Arc::strong_count(&a) == n && a.is_unique() == (n == 1));
+    core::mem::forget(a);
+} }
+
+// ------------------------------------------------------------------------------------------
+// C01/C04: clone = +1 on the same block, nothing else changes
+// ------------------------------------------------------------------------------------------
+macro_rules! h_arc_clone {
+    ($name:ident, $T:ty, $mk:expr) => {
+        gproof! { fn $name() {
+            let n = any_count();
+            let a: Arc<$T> = $mk;
+            set_cnt(&a, n);
+            let (b0, d0, s0, c0) = (base(&a), data(&a), vrt::vsize(&a), cw(&a));
+            let (p0, a0) = (vrt::p_snap(), vrt::g_allocs());
+            let b = a.clone();
+            assert!(cnt(&a) == n + 1 && Arc::count(&b) == n + 1);
+            assert!(base(&b) == b0 && base(&a) == b0 && vrt::vsize(&b) == s0);
+            assert!(vrt::addr(&*b as *const $T) == d0 && vrt::addr(&*a as *const $T) == d0);
+            assert!(vrt::p_same(p0) && vrt::ga(a0) && vrt::gd(0));
+            core::mem::forget(a);
+            core::mem::forget(b);
+        } }
+    };
+}
+// @h props=C01,C04,C16 fuc=Arc::clone
+h_arc_clone!(c01_arc_clone__tr8, Tr8, Arc::new(Tr8::new()));
+// @h props=C01,C04,C16 fuc=Arc::clone
+h_arc_clone!(c01_arc_clone__zst, Z, Arc::new(Z));
+// @h props=C01,C04,C16 fuc=Arc::clone
+h_arc_clone!(c01_arc_clone__a64, S64a64, Arc::new(S64a64::any()));
+// @h props=C01,C04,C16 fuc=Arc::clone
+h_arc_clone!(c01_arc_clone__slice, [u32], mk_slice_u32());
+// @h props=C01,C04,C16 fuc=Arc::clone
+h_arc_clone!(c01_arc_clone__dyn, dyn Probe, mk_dyn(Tr8::new()));
+// @h props=C01,C04,C16 fuc=Arc::clone
+h_arc_clone!(c01_arc_clone__str, str, Arc::from("ab"));
+
+// @h props=C01,C04 fuc=Arc::clone
+gproof! { fn c01_arc_clone_payload_intact() {
+    let n = any_count();
+    let a = mk(Tr8::new(), n);
+    let (id, v) = (a.id, a.v);
     let b = a.clone();
-    assert!(cnt(&a) == n + 1 && Arc::count(&b) == n + 1);
-    assert!(base(&b) == base(&a));
-    assert!(b.id == id && b.v == v && a.id == id);
+    assert!(b.id == id && b.v == v && a.id == id && a.v == v);
     assert!(vrt::drops() == 0 && vrt::clones() == 0);
-    assert!(vrt::ga(1) && vrt::gd(0));
     core::mem::forget(a);
     core::mem::forget(b);
 } }
 
+// ------------------------------------------------------------------------------------------
+// C01/C04/C05: release = -1; destroys payload and returns the block exactly once iff n == 1
+// ------------------------------------------------------------------------------------------
+macro_rules! h_arc_drop {
+    ($(#[$m:meta])* $name:ident, $T:ty, $mk:expr, $ndrops:expr) => {
+        gproof! { $(#[$m])* fn $name() {
+            let n = any_count();
+            let a: Arc<$T> = $mk;
+            set_cnt(&a, n);
+            let (b0, c0) = (base(&a), cw(&a));
+            let (d0, a0) = (vrt::drops(), vrt::g_allocs());
+            let want = vrt::g_req(b0);
+            let lay = vrt::inner_layout(&a);
+            assert!(!vrt::g_on() || want == lay);
+            drop(a);
+            if n == 1 {
+                assert!(vrt::drops() == d0 + $ndrops);
+                assert!(vrt::gd(1) && !vrt::g_live(b0));
+            } else {
+                assert!(vrt::drops() == d0);
+                assert!(vrt::gd(0) && vrt::glive_at(b0) && rd(c0) == n - 1);
+            }
+            assert!(vrt::ga(a0));
+            kani::cover!(n == 1, "last owner");
+            kani::cover!(n > 1, "not last owner");
+        } }
+    };
+}
 // @h props=C01,C04,C05 fuc=Arc::drop,Arc::drop_inner,Arc::drop_slow
-gproof! { fn c01_arc_drop_tr8() {
+h_arc_drop!(c01_arc_drop__tr8, Tr8, Arc::new(Tr8::new()), 1);
+// @h props=C01,C04,C05 fuc=Arc::drop,Arc::drop_inner,Arc::drop_slow
+h_arc_drop!(c01_arc_drop__tr64, Tr64, Arc::new(Tr64::new()), 1);
+// @h props=C01,C04,C05 fuc=Arc::drop,Arc::drop_inner,Arc::drop_slow
+h_arc_drop!(c01_arc_drop__tr1, Tr, Arc::new(Tr::new()), 1);
+// @h props=C01,C05 fuc=Arc::drop,Arc::drop_inner,Arc::drop_slow
+h_arc_drop!(c01_arc_drop__zst, Z, Arc::new(Z), 0);
+// @h props=C01,C05 fuc=Arc::drop,Arc::drop_inner,Arc::drop_slow
+h_arc_drop!(c01_arc_drop__a32, S33a32, Arc::new(S33a32::any()), 0);
+// @h props=C01,C04,C05 fuc=Arc::drop,Arc::drop_inner,Arc::drop_slow
+h_arc_drop!(c01_arc_drop__slice, [u32], mk_slice_u32(), 0);
+// @h props=C01,C04,C05 fuc=Arc::drop,Arc::drop_inner,Arc::drop_slow
+h_arc_drop!(c01_arc_drop__dyn, dyn Probe, mk_dyn(Tr8::new()), 1);
+// @h props=C01,C05 fuc=Arc::drop,Arc::drop_inner,Arc::drop_slow
+h_arc_drop!(c01_arc_drop__dyn_s9a8, dyn Probe, mk_dyn(S9a8::any()), 0);
+// @h props=C01,C05 fuc=Arc::drop,Arc::drop_inner,Arc::drop_slow
+h_arc_drop!(c01_arc_drop__str, str, Arc::from("abc"), 0);
+
+// @h props=C01,C04 fuc=Arc::drop
+gproof! { fn c01_arc_drop_payload_intact_when_shared() {
     let n = any_count();
-    let a = Arc::new(Tr8::new());
-    let id = a.id;
+    kani::assume(n > 1);
+    let a = mk(Tr8::new(), n);
+    let (id, v, b0, c0) = (a.id, a.v, base(&a), cw(&a));
+    let pp0 = &*a as *const Tr8;
+    drop(a);
+    assert!(unsafe { (*pp0).id == id && (*pp0).v == v });
+    assert!(!vrt::dropped(id));
+} }
+
+// @h props=C01,C05 fuc=Arc::drop bounded=len<=2
+gproof! { #[kani::unwind(4)] fn c01_arc_drop__hs_tr_elems() {
+    let n = any_count();
+    let len: usize = kani::any();
+    kani::assume(len <= 2);
+    let a = Arc::from_header_and_iter(Tr8::new(), TrIter::new(len));
     set_cnt(&a, n);
-    let b = base(&a);
+    let (b0, c0) = (base(&a), cw(&a));
     drop(a);
     if n == 1 {
-        assert!(vrt::drops() == 1 && vrt::dropped(id));
-        assert!(vrt::gd(1) && vrt::glive(0));
+        assert!(vrt::drops() == len + 1 && vrt::gd(1) && vrt::glive(0));
     } else {
-        assert!(vrt::drops() == 0 && !vrt::dropped(id));
-        assert!(vrt::gd(0) && vrt::glive_at(b));
-        assert!(cnt_at(b) == n - 1);
-        assert!(unsafe { (*((b + 8) as *const Tr8)).id } == id);
+        assert!(vrt::drops() == 0 && vrt::gd(0) && rd(c0) == n - 1);
     }
-    kani::cover!(n == 1, "last owner");
-    kani::cover!(n > 1, "not last owner");
+} }
+
+// ------------------------------------------------------------------------------------------
+// C01/C04/C11: conversions keep the block, the count and the payload (delta 0)
+// ------------------------------------------------------------------------------------------
+macro_rules! h_arc_raw_roundtrip {
+    ($name:ident, $T:ty, $mk:expr) => {
+        gproof! { fn $name() {
+            let n = any_count();
+            let a: Arc<$T> = $mk;
+            set_cnt(&a, n);
+            let (b0, d0, s0, c0) = (base(&a), data(&a), vrt::vsize(&a), cw(&a));
+            let (p0, a0) = (vrt::p_snap(), vrt::g_allocs());
+            let dp = vrt::addr(&*a as *const $T);
+            let ap = Arc::as_ptr(&a);
+            let hp = a.heap_ptr() as usize;
+            assert!(vrt::addr(ap) == dp && dp == d0 && hp == b0 && vrt::glive_at(hp));
+            let raw = Arc::into_raw(a);
+            // the raw pointer is an owner: the count is untouched and the block stays live
+            assert!(vrt::addr(raw) == dp && vrt::vsize_of(raw) == s0);
+            assert!(rd(c0) == n && vrt::glive_at(b0) && vrt::p_same(p0));
+            let b: Arc<$T> = unsafe { Arc::from_raw(raw) };
+            assert!(base(&b) == b0 && cnt(&b) == n && vrt::vsize(&b) == s0);
+            assert!(vrt::addr(&*b as *const $T) == dp);
+            assert!(vrt::p_same(p0) && vrt::ga(a0) && vrt::gd(0));
+            core::mem::forget(b);
+        } }
+    };
+}
+// @h props=C01,C04,C11 fuc=Arc::into_raw,Arc::from_raw,Arc::as_ptr,Arc::heap_ptr,Arc::deref
+h_arc_raw_roundtrip!(c11_arc_raw_roundtrip__tr8, Tr8, Arc::new(Tr8::new()));
+// @h props=C01,C11 fuc=Arc::into_raw,Arc::from_raw,Arc::as_ptr,Arc::heap_ptr,Arc::deref
+h_arc_raw_roundtrip!(c11_arc_raw_roundtrip__zst, Z, Arc::new(Z));
+// @h props=C01,C11 fuc=Arc::into_raw,Arc::from_raw,Arc::as_ptr,Arc::heap_ptr,Arc::deref
+h_arc_raw_roundtrip!(c11_arc_raw_roundtrip__s1, S1, Arc::new(S1::any()));
+// @h props=C01,C11 fuc=Arc::into_raw,Arc::from_raw,Arc::as_ptr,Arc::heap_ptr,Arc::deref
+h_arc_raw_roundtrip!(c11_arc_raw_roundtrip__a16, S16a16, Arc::new(S16a16::any()));
+// @h props=C01,C11 fuc=Arc::into_raw,Arc::from_raw,Arc::as_ptr,Arc::heap_ptr,Arc::deref
+h_arc_raw_roundtrip!(c11_arc_raw_roundtrip__a64, S64a64, Arc::new(S64a64::any()));
+// @h props=C01,C11 fuc=Arc::into_raw,Arc::from_raw,Arc::as_ptr,Arc::heap_ptr,Arc::deref
+h_arc_raw_roundtrip!(c11_arc_raw_roundtrip__slice, [u32], mk_slice_u32());
+// @h props=C01,C11 fuc=Arc::into_raw,Arc::from_raw,Arc::as_ptr,Arc::heap_ptr,Arc::deref
+h_arc_raw_roundtrip!(c11_arc_raw_roundtrip__dyn, dyn Probe, mk_dyn(S9a8::any()));
+// @h props=C01,C11 fuc=Arc::into_raw,Arc::from_raw,Arc::as_ptr,Arc::heap_ptr,Arc::deref
+h_arc_raw_roundtrip!(c11_arc_raw_roundtrip__str, str, Arc::from("abcd"));
+
+// @h props=C01,C11 fuc=Arc::from_raw_slice,Arc::into_raw
+gproof! { fn c11_arc_from_raw_slice() {
+    let n = any_count();
+    let a = mk_slice_u32();
+    set_cnt(&a, n);
+    let (b0, len, c0) = (base(&a), a.len(), cw(&a));
+    let i: usize = kani::any();
+    kani::assume(i < 6);
+    let want = if i < len { Some(a[i]) } else { None };
+    let raw = Arc::into_raw(a);
+    let b = unsafe { Arc::from_raw_slice(raw) };
+    assert!(base(&b) == b0 && cnt(&b) == n && b.len() == len);
+    if i < len { assert!(Some(b[i]) == want); }
+    assert!(vrt::ga(1) && vrt::gd(0));
+    core::mem::forget(b);
+} }
+
+// @h props=C01,C11 fuc=Arc::from_raw,Arc::into_raw note="sized -> trait object pointer cast"
+gproof! { fn c11_arc_from_raw_cast_to_dyn() {
+    let n = any_count();
+    let a = mk(Tr8::new(), n);
+    let (b0, id, v, c0) = (base(&a), a.id, a.v, cw(&a));
+    let pp0 = &*a as *const Tr8;
+    let raw = Arc::into_raw(a) as *const dyn Probe;
+    let d: Arc<dyn Probe> = unsafe { Arc::from_raw(raw) };
+    assert!(base(&d) == b0 && cnt(&d) == n && d.probe() == v);
+    assert!(vrt::vsize(&d) == core::mem::size_of::<Tr8>());
+    assert!(vrt::drops() == 0 && vrt::ga(1) && vrt::gd(0));
+    core::mem::forget(d);
+} }
+
+// @h props=C01,C04,C11 fuc=Arc::into_raw_offset,Arc::from_raw_offset
+gproof! { fn c11_arc_offset_roundtrip__tr16() {
+    let n = any_count();
+    let a = mk(Tr16::new(), n);
+    let (b0, d0, id, c0) = (base(&a), data(&a), a.id, cw(&a));
+    let o = Arc::into_raw_offset(a);
+    // an OffsetArc's bit pattern is the value's address
+    assert!(unsafe { core::mem::transmute_copy::<OffsetArc<Tr16>, usize>(&o) } == d0);
+    assert!(rd(c0) == n && OffsetArc::strong_count(&o) == n);
+    assert!(vrt::addr(&*o as *const Tr16) == d0 && o.id == id);
+    let b = Arc::from_raw_offset(o);
+    assert!(base(&b) == b0 && cnt(&b) == n && b.id == id);
+    assert!(vrt::drops() == 0 && vrt::ga(1) && vrt::gd(0));
+    core::mem::forget(b);
+} }
+
+// @h props=C01,C04,C11 fuc=Arc::into_raw_offset,Arc::from_raw_offset
+gproof! { fn c11_arc_offset_roundtrip__zst() {
+    let n = any_count();
+    let a = mk(Z, n);
+    let (b0, d0, c0) = (base(&a), data(&a), cw(&a));
+    let o = Arc::into_raw_offset(a);
+    assert!(unsafe { core::mem::transmute_copy::<OffsetArc<Z>, usize>(&o) } == d0);
+    let b = Arc::from_raw_offset(o);
+    assert!(base(&b) == b0 && cnt(&b) == n && vrt::ga(1) && vrt::gd(0));
+    core::mem::forget(b);
+} }
+
+// @h props=C01,C04,C11 fuc=Arc::with_raw_offset_arc,OffsetArc::clone,OffsetArc::drop,OffsetArc::strong_count
+gproof! { fn c04_arc_with_raw_offset_arc_callback() {
+    let n = any_count();
+    kani::assume(n < isize::MAX as usize);
+    let a = mk(Tr8::new(), n);
+    let (b0, d0, id, c0) = (base(&a), data(&a), a.id, cw(&a));
+    let keep: bool = kani::any();
+    let seen = a.with_raw_offset_arc(|o| {
+        // inside the borrow the count is what it was before the call
+        let inside = OffsetArc::strong_count(o);
+        assert!(vrt::addr(&**o as *const Tr8) == d0);
+        let c = o.clone();
+        assert!(OffsetArc::strong_count(o) == inside + 1);
+        if keep { core::mem::forget(c); } else { drop(c); }
+        inside
+    });
+    assert!(seen == n);
+    assert!(cnt(&a) == if keep { n + 1 } else { n });
+    assert!(base(&a) == b0 && a.id == id && vrt::drops() == 0 && vrt::ga(1) && vrt::gd(0));
+    core::mem::forget(a);
+} }
+
+// @h props=C04,C11 fuc=Arc::borrow_arc,ArcBorrow::strong_count,ArcBorrow::get
+gproof! { fn c04_arc_borrow_arc() {
+    let n = any_count();
+    let a = mk(S16a16::any(), n);
+    let d0 = data(&a);
+    let b = a.borrow_arc();
+    assert!(unsafe { core::mem::transmute_copy::<ArcBorrow<S16a16>, usize>(&b) } == d0);
+    assert!(ArcBorrow::strong_count(&b) == n && cnt(&a) == n);
+    assert!(vrt::addr(b.get() as *const S16a16) == d0 && vrt::addr(&*b as *const S16a16) == d0);
+    let b2 = b; // moving / copying a borrow is not an owner
+    assert!(cnt(&a) == n && ArcBorrow::ptr_eq(&b, &b2));
+    core::mem::forget(a);
+} }
+
+// @h props=C04,C14 fuc=Arc::ptr_eq
+gproof! { fn c04_arc_ptr_eq_and_move() {
+    let n = any_count();
+    kani::assume(n < isize::MAX as usize);
+    let a = mk(S9a8::any(), n);
+    let b = a.clone();
+    let c = Arc::new(S9a8::any());
+    assert!(Arc::ptr_eq(&a, &b) && !Arc::ptr_eq(&a, &c));
+    let moved = a; // moving a handle neither changes the count nor the addresses
+    assert!(cnt(&moved) == n + 1 && Arc::as_ptr(&moved) == Arc::as_ptr(&b));
+    core::mem::forget(moved);
+    core::mem::forget(b);
+    core::mem::forget(c);
+} }
+
+// ------------------------------------------------------------------------------------------
+// C03: uniqueness gates grant iff n == 1 and give the same handle back on refusal
+// ------------------------------------------------------------------------------------------
+
+// @h props=C03 fuc=Arc::get_mut,Arc::is_unique
+gproof! { fn c03_arc_get_mut__tr8() {
+    let n = any_count();
+    let mut a = mk(Tr8::new(), n);
+    let (b0, d0, id, v) = (base(&a), data(&a), a.id, a.v);
+    let w: u8 = kani::any();
+    match Arc::get_mut(&mut a) {
+        Some(r) => { assert!(n == 1 && vrt::addr(r as *const Tr8) == d0); r.v = w; }
+        None => { assert!(n != 1); }
+    }
+    assert!(base(&a) == b0 && cnt(&a) == n && a.id == id);
+    assert!(a.v == if n == 1 { w } else { v });
+    assert!(vrt::drops() == 0 && vrt::clones() == 0 && vrt::ga(1) && vrt::gd(0));
+    kani::cover!(n == 1, "granted");
+    kani::cover!(n > 1, "refused");
+    core::mem::forget(a);
+} }
+
+// @h props=C03 fuc=Arc::get_mut
+gproof! { fn c03_arc_get_mut__slice() {
+    let n = any_count();
+    let mut a = mk_slice_u32();
+    set_cnt(&a, n);
+    let (b0, len, c0) = (base(&a), a.len(), cw(&a));
+    let r = Arc::get_mut(&mut a).map(|r| (r.as_ptr() as usize, r.len()));
+    assert!(r.is_some() == (n == 1));
+    if let Some((p, l)) = r { assert!(p == data(&a) && l == len); }
+    assert!(base(&a) == b0 && cnt(&a) == n);
+    core::mem::forget(a);
+} }
+
+// @h props=C03 fuc=Arc::get_unique,Arc::try_as_unique,UniqueArc::from_arc_ref
+gproof! { fn c03_arc_get_unique__tr8() {
+    let n = any_count();
+    let mut a = mk(Tr8::new(), n);
+    let (b0, id, c0) = (base(&a), a.id, cw(&a));
+    let pp0 = &*a as *const Tr8;
+    let pa = &a as *const Arc<Tr8> as usize;
+    let w: u8 = kani::any();
+    match Arc::get_unique(&mut a) {
+        Some(u) => { assert!(n == 1 && u as *const UniqueArc<Tr8> as usize == pa); u.v = w; }
+        None => { assert!(n != 1); }
+    }
+    assert!(base(&a) == b0 && cnt(&a) == n && a.id == id);
+    assert!(n != 1 || a.v == w);
+    assert!(vrt::drops() == 0 && vrt::ga(1) && vrt::gd(0));
+    core::mem::forget(a);
+} }
+
+// @h props=C03,C09 fuc=Arc::try_unique,UniqueArc::from_arc
+gproof! { fn c03_arc_try_unique__tr8() {
+    let n = any_count();
+    let a = mk(Tr8::new(), n);
+    let (b0, id, c0) = (base(&a), a.id, cw(&a));
+    let pp0 = &*a as *const Tr8;
+    match Arc::try_unique(a) {
+        Ok(u) => { assert!(n == 1 && u.id == id); let s = u.shareable(); assert!(base(&s) == b0 && cnt(&s) == 1); core::mem::forget(s); }
+        Err(a2) => { assert!(n != 1 && base(&a2) == b0 && cnt(&a2) == n && a2.id == id); core::mem::forget(a2); }
+    }
+    assert!(vrt::drops() == 0 && vrt::clones() == 0 && vrt::ga(1) && vrt::gd(0));
+    kani::cover!(n == 1, "granted");
+    kani::cover!(n > 1, "refused");
+} }
+
+// @h props=C03,C09 fuc=Arc::try_unique
+gproof! { fn c03_arc_try_unique__dyn() {
+    let n = any_count();
+    let a = mk_dyn(Tr8::new());
+    set_cnt(&a, n);
+    let (b0, c0) = (base(&a), cw(&a));
+    match Arc::try_unique(a) {
+        Ok(u) => { assert!(n == 1); core::mem::forget(u); }
+        Err(a2) => { assert!(n != 1 && base(&a2) == b0 && cnt(&a2) == n); core::mem::forget(a2); }
+    }
+    assert!(vrt::drops() == 0 && vrt::gd(0));
+} }
+
+// @h props=C03,C09 fuc=UniqueArc::try_from,Arc::try_unique
+gproof! { fn c03_unique_try_from_arc() {
+    use core::convert::TryFrom;
+    let n = any_count();
+    let a = mk(Tr8::new(), n);
+    let (b0, id, c0) = (base(&a), a.id, cw(&a));
+    let pp0 = &*a as *const Tr8;
+    match UniqueArc::try_from(a) {
+        Ok(u) => { assert!(n == 1 && u.id == id); core::mem::forget(u); }
+        Err(a2) => { assert!(n != 1 && base(&a2) == b0 && cnt(&a2) == n && a2.id == id); core::mem::forget(a2); }
+    }
+    assert!(vrt::drops() == 0 && vrt::clones() == 0 && vrt::gd(0));
+} }
+
+// @h props=C03,C15 fuc=Arc::write,must_be_unique,UniqueArc::write
+gproof! { fn c15_arc_deprecated_write_unique() {
+    let mut a: Arc<MaybeUninit<Tr8>> = Arc::new_uninit();
+    let d0 = data(&a);
+    let t = Tr8::new();
+    let id = t.id;
+    let r = a.write(t);
+    assert!(r as *const Tr8 as usize == d0 && r.id == id);
+    assert!(vrt::drops() == 0 && cnt(&a) == 1);
+    let b = unsafe { a.assume_init() };
+    assert!(b.id == id);
+    drop(b);
+    assert!(vrt::drops() == 1 && vrt::dropped(id) && vrt::gd(1));
+} }
+
+// @h props=C03,C15 kind=panic site="must be unique|must_be_unique" fuc=Arc::write,must_be_unique
+gpanic! { fn c15_arc_deprecated_write_shared_refused() {
+    let n = any_count();
+    kani::assume(n > 1);
+    let mut a: Arc<MaybeUninit<S9a8>> = Arc::new_uninit();
+    set_cnt(&a, n);
+    let _ = a.write(S9a8::any());
+} }
+
+// @h props=C03,C15 kind=panic site="must be unique|must_be_unique" fuc=Arc::as_mut_slice,must_be_unique
+gpanic! { fn c15_arc_deprecated_as_mut_slice_shared_refused() {
+    let n = any_count();
+    kani::assume(n > 1);
+    let mut a: Arc<[MaybeUninit<u32>]> = Arc::new_uninit_slice(3);
+    set_cnt(&a, n);
+    let s = a.as_mut_slice();
+    s[0] = MaybeUninit::new(1);
+} }
+
+// @h props=C03,C15 fuc=Arc::as_mut_slice,must_be_unique
+gproof! { fn c15_arc_deprecated_as_mut_slice_unique() {
+    let len: usize = kani::any();
+    kani::assume(len <= 8);
+    let mut a: Arc<[MaybeUninit<u32>]> = Arc::new_uninit_slice(len);
+    let d0 = data(&a);
+    let s = a.as_mut_slice();
+    assert!(s.as_ptr() as usize == d0 && s.len() == len);
+    core::mem::forget(a);
+} }
+
+// ------------------------------------------------------------------------------------------
+// C08: copy-on-write
+// ------------------------------------------------------------------------------------------
+
+// @h props=C08,C03 fuc=Arc::make_mut
+gproof! { fn c08_arc_make_mut__tr8() {
+    let n = any_count();
+    let mut a = mk(Tr8::new(), n);
+    let (b0, id0, v0, c0) = (base(&a), a.id, a.v, cw(&a));
+    let pp0 = &*a as *const Tr8;
+    let w: u8 = kani::any();
+    {
+        let r = Arc::make_mut(&mut a);
+        assert!(r.v == v0);
+        r.v = w;
+    }
+    assert!(a.v == w && cnt(&a) == 1);
+    if n == 1 {
+        assert!(base(&a) == b0 && a.id == id0 && vrt::clones() == 0 && vrt::ga(1) && vrt::gd(0));
+    } else {
+        assert!(base(&a) != b0 && a.id != id0 && vrt::clones() == 1 && vrt::ga(2) && vrt::gd(0));
+        // the previous allocation lost exactly one owner and still holds the old, unmodified value
+        let old = pp0;
+        assert!(rd(c0) == n - 1 && vrt::glive_at(b0));
+        assert!(unsafe { (*old).v == v0 && (*old).id == id0 });
+    }
+    assert!(vrt::drops() == 0);
+    kani::cover!(n == 1, "in place");
+    kani::cover!(n > 1, "copied");
+    core::mem::forget(a);
+} }
+
+// @h props=C08,C03 fuc=Arc::make_mut
+gproof! { fn c08_arc_make_mut__a64_write_isolated() {
+    let n = any_count();
+    kani::assume(n > 1);
+    let mut a = mk(S64a64::any(), n);
+    let (b0, old_val, c0) = (base(&a), *a, cw(&a));
+    let pp0 = &*a as *const S64a64;
+    let w: [u8; 64] = kani::any();
+    Arc::make_mut(&mut a).0 = w;
+    assert!(a.0 == w && cnt(&a) == 1 && base(&a) != b0);
+    assert!(unsafe { *pp0 } == old_val);
+    assert!(rd(c0) == n - 1 && vrt::ga(2) && vrt::gd(0));
+    core::mem::forget(a);
+} }
+
+// @h props=C08,C03 fuc=Arc::make_unique,UniqueArc::from_arc_ref
+gproof! { fn c08_arc_make_unique__tr8() {
+    let n = any_count();
+    let mut a = mk(Tr8::new(), n);
+    let (b0, id0, v0, c0) = (base(&a), a.id, a.v, cw(&a));
+    let pp0 = &*a as *const Tr8;
+    let w: u8 = kani::any();
+    {
+        let u = Arc::make_unique(&mut a);
+        assert!(u.v == v0);
+        u.v = w;
+    }
+    assert!(a.v == w && cnt(&a) == 1);
+    if n == 1 {
+        assert!(base(&a) == b0 && a.id == id0 && vrt::clones() == 0 && vrt::ga(1) && vrt::gd(0));
+    } else {
+        assert!(base(&a) != b0 && vrt::clones() == 1 && vrt::ga(2) && vrt::gd(0));
+        let old = pp0;
+        assert!(rd(c0) == n - 1 && unsafe { (*old).v == v0 && (*old).id == id0 });
+    }
+    assert!(vrt::drops() == 0);
+    core::mem::forget(a);
+} }
+
+// ------------------------------------------------------------------------------------------
+// C09: unwrapping conserves the value
+// ------------------------------------------------------------------------------------------
+
+// @h props=C09,C03,C05 fuc=Arc::try_unwrap,Arc::try_unique,UniqueArc::into_inner
+gproof! { fn c09_arc_try_unwrap__tr8() {
+    let n = any_count();
+    let a = mk(Tr8::new(), n);
+    let (b0, id, c0) = (base(&a), a.id, cw(&a));
+    let pp0 = &*a as *const Tr8;
+    match Arc::try_unwrap(a) {
+        Ok(v) => {
+            assert!(n == 1 && v.id == id && !vrt::dropped(id));
+            assert!(vrt::gd(1) && !vrt::g_live(b0));
+            core::mem::forget(v);
+        }
+        Err(a2) => {
+            assert!(n != 1 && base(&a2) == b0 && cnt(&a2) == n && a2.id == id);
+            assert!(vrt::gd(0) && vrt::glive_at(b0));
+            core::mem::forget(a2);
+        }
+    }
+    assert!(vrt::drops() == 0 && vrt::clones() == 0 && vrt::ga(1));
+    kani::cover!(n == 1, "moved out");
+    kani::cover!(n > 1, "kept");
+} }
+
+// @h props=C09,C05 fuc=Arc::try_unwrap,UniqueArc::into_inner
+gproof! { fn c09_arc_try_unwrap__a64() {
+    let n = any_count();
+    let val = S64a64::any();
+    let a = mk(val, n);
+    let (b0, c0) = (base(&a), cw(&a));
+    match Arc::try_unwrap(a) {
+        Ok(v) => { assert!(n == 1 && v == val && vrt::gd(1) && !vrt::g_live(b0)); }
+        Err(a2) => { assert!(n != 1 && base(&a2) == b0 && cnt(&a2) == n && *a2 == val && vrt::gd(0)); core::mem::forget(a2); }
+    }
+} }
+
+// @h props=C09,C05 fuc=UniqueArc::into_inner
+gproof! { fn c09_unique_into_inner__tr16() {
+    let u = UniqueArc::new(Tr16::new());
+    let id = u.id;
+    let v = UniqueArc::into_inner(u);
+    assert!(v.id == id && !vrt::dropped(id) && vrt::drops() == 0 && vrt::clones() == 0);
+    assert!(vrt::ga(1) && vrt::gd(1) && vrt::glive(0));
+    drop(v);
+    assert!(vrt::drops() == 1);
+} }
+
+// @h props=C09 fuc=Arc::unwrap_or_clone
+gproof! { fn c09_arc_unwrap_or_clone__tr8() {
+    let n = any_count();
+    let a = mk(Tr8::new(), n);
+    let (b0, id, v0, c0) = (base(&a), a.id, a.v, cw(&a));
+    let pp0 = &*a as *const Tr8;
+    let v = Arc::unwrap_or_clone(a);
+    assert!(v.v == v0);
+    if n == 1 {
+        assert!(v.id == id && vrt::clones() == 0 && vrt::gd(1) && !vrt::g_live(b0));
+    } else {
+        assert!(v.id != id && vrt::clones() == 1 && rd(c0) == n - 1 && vrt::gd(0) && vrt::glive_at(b0));
+        assert!(unsafe { (*pp0).id } == id && !vrt::dropped(id));
+    }
+    assert!(vrt::drops() == 0 && vrt::ga(1));
+    core::mem::forget(v);
+    kani::cover!(n == 1, "moved out");
+    kani::cover!(n > 1, "cloned");
+} }
+
+// ------------------------------------------------------------------------------------------
+// C16: overflow of the count
+// ------------------------------------------------------------------------------------------
+
+// @h props=C16 kind=panic site="abort" fuc=Arc::clone
+gpanic! { fn c16_arc_clone_overflow_aborts() {
+    let n: usize = kani::any();
+    kani::assume(n > isize::MAX as usize);
+    let a = mk(S1::any(), n);
+    let b = a.clone();
+    core::mem::forget(a);
+    core::mem::forget(b);
+} }
+
+// @h props=C16 kind=panic site="abort" fuc=Arc::clone
+gpanic! { fn c16_arc_clone_overflow_aborts__slice() {
+    let n: usize = kani::any();
+    kani::assume(n > isize::MAX as usize);
+    let a = mk_slice_u32();
+    set_cnt(&a, n);
+    let b = a.clone();
+    core::mem::forget(a);
+    core::mem::forget(b);
+} }
+
+// @h props=C16 kind=panic site="abort" fuc=Arc::clone
+gpanic! { fn c16_arc_clone_overflow_aborts__dyn() {
+    let n: usize = kani::any();
+    kani::assume(n > isize::MAX as usize);
+    let a = mk_dyn(S1::any());
+    set_cnt(&a, n);
+    let b = a.clone();
+    core::mem::forget(a);
+    core::mem::forget(b);
+} }
+
+// @h props=C16 fuc=Arc::clone note="every count up to isize::MAX: clone succeeds and adds exactly one"
+gproof! { fn c16_arc_clone_below_limit_adds_one() {
+    let n = any_count();
+    let a = mk(S1::any(), n);
+    let b = a.clone();
+    assert!(cnt(&a) == n + 1);
+    kani::cover!(n == isize::MAX as usize, "boundary isize::MAX");
+    kani::cover!(n == (1usize << 32), "2^32");
+    core::mem::forget(a);
+    core::mem::forget(b);
 } }
